@@ -43,6 +43,8 @@ type c17Input struct {
 	// the tags at package level) | levels-rev | nested (the package sits below a recursive package that
 	// sets the tags; it is listed itself, recursive too, and sets the boilerplate) | nested-rev
 	Layout string `json:"layout,omitempty"`
+	// another configured package *of the same package name* (in another directory) with a header of its own
+	Sibling bool `json:"sibling,omitempty"`
 }
 
 type c17 struct{}
@@ -207,6 +209,7 @@ func (c17) Generate(c *Ctx) []any {
 			}
 		}
 		in.Layout = []string{"top", "levels", "nested", "top", "levels-rev", "nested-rev"}[(i/4)%6]
+		in.Sibling = i%3 != 0
 		// tag sets: none, all, and random subsets
 		custom := []string{"foo", "bar", "integration", "baz_1"}
 		in.TagSets = [][]string{{}, custom}
@@ -344,11 +347,19 @@ func (c17) Run(c *Ctx, raw json.RawMessage) Case {
 		cfg.WriteString(td("", boilerLine, tagsLine))
 		cfg.WriteString("packages:\n  example.com/m/foo:\n    interfaces:\n      Doer:\n")
 	}
+	if in.Sibling {
+		files["alt/foo/foo.go"] = "package foo\n\ntype Other interface{ Ping() error }\n"
+		files["lic/alt.txt"] = "// ALT LICENSE of the sibling package\n"
+		fmt.Fprintf(&cfg, "  example.com/m/alt/foo:\n    config:\n      dir: \"{{.InterfaceDir}}\"\n      pkgname: foo\n      template-data:\n        mock-build-tags: \"sibling_only\"\n        boilerplate-file: %q\n    interfaces:\n      Other:\n", filepath.Join(dir, "lic", "alt.txt"))
+	}
 	files[".mockery.yml"] = cfg.String()
 	if err := writeFiles(dir, files); err != nil {
 		return Case{Oracle: fail("harness", "%v", err)}
 	}
 	tags := []string{"tmpl-" + in.Template, "fmt-" + in.Formatter, "place-" + in.Placement, "layout-" + in.Layout}
+	if in.Sibling {
+		tags = append(tags, "same-named-sibling")
+	}
 	if in.Boilerplate != nil {
 		tags = append(tags, "boilerplate")
 		if !strings.HasSuffix(*in.Boilerplate, "\n") {
